@@ -152,7 +152,11 @@ class DPCheck(SubCheck):
                 errors.append("symbolic result disagrees with native twin: %s" % json.dumps(b, default=str)[:800])
             if not bad:
                 notab = [z3.Not(it.lits.guard_expr(frozenset(g))) for g, k, m in it.aborts]
-                for name, expr, tag in self.obligations(run, orc, tier):
+                part = shape.get("part") or [0, 1]
+                for oi, (name, expr, tag) in enumerate(self.obligations(run, orc, tier)):
+                    cover[tag] = cover.get(tag, 0)
+                    if oi % part[1] != part[0]:
+                        continue
                     nob += 1
                     cover[tag] = cover.get(tag, 0) + 1
                     r, model, dt = dpcheck.solve(expr, cons + notab, self.solver_timeout_ms)
@@ -353,4 +357,35 @@ class Optimality(DPCheck):
         return None
 
 
-SUBCHECKS = {c.name: c for c in [Optimality()]}
+class Pedigree(Optimality):
+    """same obligations on pedigree instances: trio (one transmission value per column, 4 values),
+    symbolic recombination costs; Mendelian-conflict shapes must throw for every input"""
+
+    name = "dp_ped"
+    required_cover = ["symbolic run completed", "state merging exercised", "optimality", "witness", "alleles", "mendelian conflict shape"]
+
+    def shapes(self, tier):
+        H = (0, 1)
+        out = []
+        allhet = [[H, H], [H, H], [H, H]]
+        if tier == "quick":
+            for k in range(3):  # obligations of the two heavy shapes are spread over three jobs each
+                out.append(trio(2, [(2, (0, 1)), (2, (0, 1))], allhet, W=15, Rc=15, part=[k, 3]))
+                out.append(trio(2, [(0, (0, 1)), (2, (0, 1))], [[H, H], [(0, 0), H], [H, H]], W=15, Rc=15, part=[k, 3]))
+            out.append(trio(2, [(2, (0, 1))], [[(0, 0), H], [H, (1, 1)], [H, H]], W=15, Rc=15))
+            # Mendelian conflict in column 1: father 0/0, mother 0/0, child 0/1
+            out.append(trio(2, [(2, (0, 1))], [[H, (0, 0)], [H, (0, 0)], [H, H]], W=15, Rc=15))
+        else:
+            for reads in ([(2, (0, 1)), (2, (0, 1))], [(0, (0, 1)), (2, (0, 1))], [(0, (0, 1)), (1, (0, 1)), (2, (0, 1))], [(2, (0, 1, 2)), (2, (1, 2))], [(1, (0, 1)), (2, (1, 2))]):
+                C = 1 + max(max(c) for s, c in reads)
+                out.append(trio(C, reads, [[H] * C, [H] * C, [H] * C], W=31, Rc=31))
+            for gf, gm, gc in itertools.product([(0, 0), H, (1, 1)], repeat=3):
+                out.append(trio(2, [(2, (0, 1))], [[H, gf], [H, gm], [H, gc]], W=31, Rc=31))
+            out.append(trio(2, [(2, (0, 1)), (2, (0, 1))], allhet, W=31, Rc=31, distrust=True, G=31))
+        return out
+
+    def bounds(self, tier):
+        return "%d trio shapes (father, mother, child; <= 3 reads, <= 3 columns; het and hom/het genotype mixes incl. Mendelian-conflict columns; distrust mode in thorough), symbolic alleles, weights and recombination costs" % len(self.shapes(tier))
+
+
+SUBCHECKS = {c.name: c for c in [Optimality(), Pedigree()]}
